@@ -28,13 +28,16 @@ ASSUMPTIONS = ["documented errors = ValueError, TypeError and their subclasses (
 REQUIRED = ["returned_and_reaccepted", "documented_error", "config_returned", "sweep_ok",
             "option_returned", "items_returned"]
 KF_UNNAMED = "C20:Acl:empty_text_gives_unnamed_acl_whose_text_is_rejected"
+KF_NESTING = "C20:config:nesting_deeper_than_recursion_limit"
+KF_MASK0 = "C20:AddressAg:ios_member_with_mask_0.0.0.0_renders_denied_text"
 
 PLATFORMS = ("ios", "nxos", "asa")
 VOCAB = ["permit", "deny", "remark", "ip", "tcp", "6", "any", "host", "10.0.0.1", "0.0.0.255",
          "10.0.0.0/24", "300.1.1.1", "10.0.0.0/33", "eq", "range", "neq", "80", "135", "www", "65536", "-1",
-         "/", "１２", "", "object-group", "log"]
+         "/", "１２", "", "object-group", "log", "9999999999999999999999999",
+         "0.0.0.0"]
 VOCAB_SMALL = ["permit", "remark", "tcp", "any", "host", "10.0.0.1", "0.0.0.255", "10.0.0.0/24", "eq",
-               "range", "80", "135", "www", "65536", "１２", "object-group", "log"]
+               "range", "80", "135", "www", "65536", "１２", "object-group", "log", "9999999999999999999999999"]
 CTORS = ["Ace", "Remark", "AceGroup", "Acl", "Acl_body", "Address", "AddressAg", "AddrGroup",
          "AddrGroup_body", "Port", "Protocol", "Option", "Wildcard"]
 
@@ -214,7 +217,12 @@ def call(ctor, platform, text, ctx):
         kf = None
         if ctor == "Acl" and not text.strip() and isinstance(ex, ValueError):
             kf = KF_UNNAMED
-        ctx.viol(f"{ctor}:own_rendering_rejected" + (":unnamed_acl" if kf else ""), case,
+        if ctor in ("AddressAg", "AddrGroup", "AddrGroup_body") and platform == "ios" and \
+                isinstance(ex, ValueError) and text.split()[-1:] == ["0.0.0.0"] and \
+                _safe_line(obj).endswith("0.0.0.0 0.0.0.0"):
+            kf = KF_MASK0
+        ctx.viol(f"{ctor}:own_rendering_rejected" + (":unnamed_acl" if kf == KF_UNNAMED else ":ios_mask_0"
+                                                     if kf else ""), case,
                  dict(line=_safe_line(obj), error=repr(ex)), "accepted again", kf=kf)
         return
     ctx.out("returned_and_reaccepted")
@@ -337,6 +345,9 @@ def _config_misc(ctx):
     for text in ("", " ", "\n\n", "!", "!\n!\n", " indented first line\nnext", "\tx", "ip access-list",
                  "ip access-list extended", "ip access-list extended A", "object-group network",
                  "object-group network G", "interface", "interface E1\n ip access-group",
+                 "interface E1\n ip access-group A", "interface E1\n ip access-group A in out",
+                 "ip access-list extended A\n permit ip any any\ninterface E1\n ip access-group A\n ip access-group",
+                 "interface E1\n ip access-group  A  in", "interface E1\n ip access-group\tA\tin",
                  "interface E1\n ip access-group A sideways", "ip access-list extended A\n permit ip any any\n"
                  "ip access-list extended A\n deny ip any any", " ip access-list extended A\n permit ip any any"):
         for plat in ("ios", "nxos"):
@@ -488,6 +499,9 @@ def sweeps():
         ("acls", lambda n: "\n".join(f"ip access-list extended A{i}\n permit ip any any" for i in range(n))),
         ("acls", lambda n: "ip access-list extended A\n" + " " * n + "permit ip any any"),
         ("acls", lambda n: "a\n" + "\n".join(" " * (i % 50 + 1) + "x" for i in range(n))),
+        # every line indented one level deeper than the previous one (nesting depth n)
+        ("acls", lambda n: "ip access-list extended A\n" + "\n".join(" " * (i + 1) + "permit ip any any" for i in range(n))),
+        ("addrgroups", lambda n: "object-group network G\n" + "\n".join(" " * (i + 1) + "host 10.0.0.1" for i in range(n))),
         ("aces", lambda n: "permit ip any any\n" * n),
         ("addrgroups", lambda n: "\n".join(f"object-group network G{i}\n host 10.0.0.1" for i in range(n))),
     ]
@@ -515,8 +529,12 @@ def _sweep(idx, ctx):
             ctx.viol(f"{name}:sweep_cpu_budget_exceeded", case, "more than 30 s CPU", "terminates quickly")
             return
         except Exception as ex:  # noqa
-            ctx.viol(f"{name}:sweep_undocumented_exception:{type(ex).__name__}", case, repr(ex)[:300],
-                     "object or ValueError/TypeError")
+            kf = None
+            if isinstance(ex, RecursionError) and name in ("acls", "addrgroups") and n >= 500 and \
+                    "\n" + " " * 400 in text:
+                kf = KF_NESTING
+            ctx.viol(f"{name}:sweep_undocumented_exception:{type(ex).__name__}" + (":deep_nesting" if kf else ""),
+                     case, repr(ex)[:300], "object or ValueError/TypeError", kf=kf)
             return
         times.append(time.process_time() - t0)
         ctx.nt(("sweep", idx, n))
